@@ -15,14 +15,15 @@ def build_shim(B):
     return so
 
 
-def job_script(d, bursts, exitcode=0, sig=0, pad=0):
+def job_script(d, bursts, exitcode=0, sig=0, pad=0, linger=0):
     """sh script writing numbered tokens: bursts = [(stream, count)...]; token line = 'O00001' + pad x 'x'"""
     L = ['#!/bin/sh', 'echo start >> %s/starts' % d, 'pwd > %s/pwd; umask > %s/umask; echo "$0" > %s/shell' % (d, d, d), 'cat > %s/stdin' % d,
          'P=$(printf "%%%ds" "" | tr " " x)' % pad if pad else 'P=', 'o=0; e=0']
     for s, n in bursts:
         if s == 1: L.append('i=0; while [ $i -lt %d ]; do o=$((o+1)); printf "O%%05d%%s\\n" $o "$P"; i=$((i+1)); done' % n)
         else: L.append('i=0; while [ $i -lt %d ]; do e=$((e+1)); printf "E%%05d%%s\\n" $e "$P" >&2; i=$((i+1)); done' % n)
-    if sig: L.append('kill -%d $$; sleep 5' % sig)
+    if linger: L.append('sleep %d' % linger)          # the job outlives its time limit: the deadline ends it
+    elif sig: L.append('kill -%d $$; sleep 5' % sig)
     L.append('exit %d' % exitcode)
     return '\n'.join(L) + '\n'
 
@@ -49,10 +50,10 @@ def mail_tokens(path):
     return tokens(tmp)
 
 
-def run_one(B, shim, wd, rq, bursts, exitcode=0, sig=0, pad=0, timeout=60, extra_vtodo=(), noalarm=False):
+def run_one(B, shim, wd, rq, bursts, exitcode=0, sig=0, pad=0, timeout=60, extra_vtodo=(), noalarm=False, linger=0):
     d = tempfile.mkdtemp(prefix='x', dir=wd)
     os.makedirs(d + '/cwd')
-    open(d + '/job.sh', 'w').write(job_script(d, bursts, exitcode, sig, pad))
+    open(d + '/job.sh', 'w').write(job_script(d, bursts, exitcode, sig, pad, linger))
     open(d + '/in.txt', 'w').write(rq.get('stdin', ''))
     if rq.get('mailrc'): open(d + '/mailrc', 'w').write('%d\n' % rq['mailrc'])
     sh = rq.get('shell', '/bin/sh') if not rq.get('nospawn') else '/nonexistent/sh'
@@ -121,7 +122,8 @@ def run_request(B, shim, wd, tasks, timeout=90):
               'X-ECHS-SETUID:%d' % os.getuid(), 'X-ECHS-SETGID:%d' % os.getgid(),
               'X-ECHS-SHELL:' + ('/bin/sh' if t.get('spawn', True) else '/nonexistent/sh'), 'LOCATION:' + d]
         if not t.get('prep', True): L.append('X-ECHS-IFILE:%s/missing-input' % d)
-        if t['L'] > 0: L.append('DURATION:PT%dS' % t['L'])
+        if t.get('due'): L.append('DUE:' + time.strftime('%Y%m%dT%H%M%SZ', time.gmtime(int(time.time()) + t['due'])))      # an absolute time, 'due' seconds from now
+        elif t['L'] > 0: L.append('DURATION:PT%dS' % t['L'])
         L += ['X-ECHS-UMASK:022', 'X-ECHS-MAIL-RUN:0', 'X-ECHS-MAIL-OUT:0', 'X-ECHS-MAIL-ERR:0', 'ORGANIZER:echse', 'END:VTODO']
     L += ['END:VCALENDAR', '']
     env = dict(os.environ, XSHIM_DIR=d, XSHIM_MAILER=MAILER, LD_PRELOAD=shim)
